@@ -45,14 +45,14 @@ fn scenario(seq: i64, seq_dec: &[u8], with_salt: bool) {
     let verdict: bool = kani::any();
     oracle::arm(0, verdict);
     let key = oracle::K1;
-    let target_b: [u8; 20] = kani::any();
+    let target_b: [u8; 20] = kani::env();
     let target = Id::from(target_b);
     let vb: u8 = kani::any();
     let sb: u8 = kani::any();
     let salt_arr = [sb];
     let salt: Option<&[u8]> = if with_salt { Some(&salt_arr) } else { None };
     let msg = ref_signable(salt, seq_dec, &[vb]);
-    let sym_sig: [u8; 64] = kani::any();
+    let sym_sig: [u8; 64] = kani::env();
     let sig = oracle::signature(0, 1, &msg, sym_sig);
     let expected_target = MutableItem::target_from_key(&key, salt);
     let r = MutableItem::from_dht_message(target, &key, Box::new([vb]), seq, &sig, salt.map(|s| s.into()));
@@ -246,7 +246,7 @@ fn c02_o1u_from_dht_message_any_seq() {
     let verdict: bool = kani::any();
     oracle::arm(0, verdict);
     let key = oracle::K1;
-    let target_b: [u8; 20] = kani::any();
+    let target_b: [u8; 20] = kani::env();
     let target = Id::from(target_b);
     let seq: i64 = kani::any();
     let vb: u8 = kani::any();
@@ -260,7 +260,7 @@ fn c02_o1u_from_dht_message_any_seq() {
     let msg: Vec<u8> = SG_TAG.to_vec();
     #[cfg(verif_replay)]
     let msg: Vec<u8> = ref_signable(salt, seq.to_string().as_bytes(), &[vb]);
-    let sym_sig: [u8; 64] = kani::any();
+    let sym_sig: [u8; 64] = kani::env();
     let sig = oracle::signature(0, 1, &msg, sym_sig);
     let expected_target = MutableItem::target_from_key(&key, salt);
     let r = MutableItem::from_dht_message(target, &key, Box::new([vb]), seq, &sig, salt.map(|s| s.into()));
@@ -415,7 +415,7 @@ fn tk_digest_probe(_s: &sha1_smol::Sha1) -> sha1_smol::Digest {
 #[kani::stub(sha1_smol::Sha1::digest, tk_digest_probe)]
 #[kani::unwind(8)]
 fn c02_o1t_target_hash_input() {
-    let k: [u8; 32] = kani::any();
+    let k: [u8; 32] = kani::env();
     let mut salt64 = [0x55u8; 64];
     salt64[0] = kani::any();
     salt64[63] = kani::any();
